@@ -33,6 +33,29 @@ def sees_line_ends(g):
     return False
 
 
+def data_flag_derived(desc_key):
+    return h64('derived', desc_key) % 3 == 0
+
+
+def compile_derived(g):
+    """(module of a grammar that extends g and adds `ignore ";"`, names to forget)"""
+    pname, cname = sut.fresh_name('vfc04p_'), sut.fresh_name('vfc04c_')
+    pm, err = sut.compile_grammar(peg.render(g.copy(header=pname)))
+    if pm is None:
+        return None, [pname]
+    cm, err = sut.compile_grammar('grammar %s extends %s\nignore %s\n' % (cname, pname, "b';'" if g.mode == 'bytes' else "';'"))
+    return cm, [pname, cname]
+
+
+def sprinkle(t):
+    """';' after every second character and at both ends."""
+    sep = b';' if isinstance(t, bytes) else ';'
+    out = sep
+    for i in range(0, len(t), 2):
+        out += t[i:i + 2] + sep
+    return out
+
+
 def lengthen(t, run):
     """Duplicate the first character of a skipped run (stays ignorable for every pattern of
     the pool: ' ' / newline / '#...' / ';' / tab; the '<>' pair is duplicated whole)."""
@@ -127,6 +150,28 @@ class C04(Check):
                 if a != b:
                     res.mismatch({'g': peg.g_to_dict(g2), 'entry': sname, 'text': t, 'oracle': 'module-parse'})
                     break
+            # through a grammar that extends this one and declares one more ignore pattern, the tokens
+            # of the inherited rules are followed by both kinds of ignorable text
+            if 3 not in idx and data_flag_derived(desc_key=peg.render(g2)):
+                cm, names = compile_derived(g2)
+                if cm is None:
+                    res.mismatch({'g': peg.g_to_dict(g2), 'entry': sname, 'text': inputs[0], 'oracle': 'derived-ignore'})
+                else:
+                    res.hist['derived_ignore_grammars'] += 1
+                    g3 = g2.copy(ignores=list(g2.ignores) + [(None, ('lit', ';'))])
+                    for t in (inputs[1:] + longer)[::5]:
+                        t3 = sprinkle(t)
+                        try:
+                            r3 = peg.Interp(g3, t3).run_rule(sname)
+                        except (peg.StepLimit, peg.RefError, RecursionError):
+                            continue
+                        got = sut.run(cm, None, t3, budget=diff.QUICK_BUDGET)
+                        res.evals += 1
+                        if not sut.agrees(sut.expected(r3, t3), got):
+                            res.mismatch({'g': peg.g_to_dict(g2), 'entry': sname, 'text': t3, 'oracle': 'derived-ignore'})
+                            break
+                for nm in names:
+                    sut.forget(nm)
             # oracle 2: lengthen skipped runs
             if any(x[0] == 'backtrack' for r in g2.rules for e in peg.rule_exprs(r) for x in peg.walk(e)):
                 return
@@ -170,6 +215,26 @@ class C04(Check):
                 return None
             return {'bucket': 'module-parse-differs-from-start-rule', 'module': list(a), 'start': list(b),
                     'grammar': peg.render(g), 'input': repr(case['text'])}
+        if case.get('oracle') == 'derived-ignore':
+            cm, names = compile_derived(g)
+            try:
+                if cm is None:
+                    return {'bucket': 'derived-ignore-compile', 'grammar': peg.render(g)}
+                g3 = g.copy(ignores=list(g.ignores) + [(None, ('lit', ';'))])
+                t3 = case['text']
+                try:
+                    r3 = peg.Interp(g3, t3).run_rule(case['entry'])
+                except (peg.StepLimit, peg.RefError, RecursionError):
+                    return None
+                got = diff.run_confirmed(cm, None, t3)
+                exp = sut.expected(r3, t3)
+                if sut.agrees(exp, got):
+                    return None
+                return {'bucket': 'derived-ignore:%s->%s' % (exp[0], got[0]), 'expected': list(exp), 'got': list(got),
+                        'grammar': peg.render(g) + "# parsed through a grammar that extends it and adds: ignore ';'\n", 'input': repr(t3)}
+            finally:
+                for nm in names:
+                    sut.forget(nm)
         if case.get('oracle') == 'lengthen':
             mod, err = sut.compile_grammar(peg.render(g))
             if mod is None:
